@@ -14,7 +14,7 @@ from vf.core import Ctx, HarnessError
 def _all_defs() -> typing.List[space.TypeDef]:
     from vf.checks import c04, c05
 
-    return list(space.universe(True)) + c04.override_defs() + c05.const_defs()
+    return list(space.universe(True, big=True)) + c04.override_defs() + c05.const_defs()
 
 
 def _config(tag: str) -> E.Config:
